@@ -66,17 +66,17 @@ Z("c04_e_zrange_rest", "quick", "ZRANGE / ZREVRANGE index translation: start, st
   ["StorageEngine::zrange", "SkipList::range_by_rank", "SkipList::len"], "2 members, towers (1,1)",
   assumptions=["not R, R = stop < -len || (reverse && start >= len)"])
 Z("c04_e_zrange_kf", "quick", "same inside region R = stop < -len || (reverse && start >= len): expected to fail (ZRANGE z 0 -3 on 2 members returns the first member; ZREVRANGE z 2 5 returns the lowest member; Redis: empty)",
-  ["StorageEngine::zrange"], "2 members, towers (1,1)", expect="kf:KF-C04-zrange-index")
+  ["StorageEngine::zrange"], "2 members, towers (1,1)", expect="hold")
 Z("c04_e_zadd_rest", "thorough", "ZADD z score m on an existing set, any member byte, any non-NaN score: reply = is-new, member present once with latest score, others unchanged, invariant holds, key still a sorted set",
   ["StorageEngine::zadd", "SkipList::insert", "SkipList::insert_new_node", "SkipList::remove_node_by_score"], "1 member, tower (1), new tower level 1",
   native=False, assumptions=["score is not NaN"])
 Z("c04_e_zadd_kf", "quick", "ZADD with a NaN score must be refused and change nothing: expected to fail (engine stores NaN; the member can then never be removed)",
-  ["StorageEngine::zadd"], "1 member, tower (1), new tower level 1", expect="kf:KF-C04-zadd-nan", native=False)
+  ["StorageEngine::zadd"], "1 member, tower (1), new tower level 1", expect="hold", native=False)
 Z("c04_e_zincrby_rest", "thorough", "ZINCRBY z incr m on an existing set, any member byte, any increment whose result is a number: reply == old + incr (incr for a new member), set updated accordingly, invariant holds",
   ["StorageEngine::zincrby", "SkipList::get_score", "SkipList::insert"], "1 member, tower (1), new tower level 0",
   native=False, assumptions=["old score + increment is not NaN"])
 Z("c04_e_zincrby_kf", "quick", "ZINCRBY whose result is NaN (NaN increment, +inf + -inf) must be refused and change nothing: expected to fail",
-  ["StorageEngine::zincrby"], "1 member, tower (1), new tower level 0", expect="kf:KF-C04-zincrby-nan", native=False)
+  ["StorageEngine::zincrby"], "1 member, tower (1), new tower level 0", expect="hold", native=False)
 Z("c04_e_zrank_n2", "quick", "ZRANK / ZREVRANK / ZSCORE / ZCARD for any member byte: rank == position (len-1-position reversed), score, cardinality; set unchanged",
   ["StorageEngine::zrank", "StorageEngine::zscore", "StorageEngine::zcard", "SkipList::get_rank", "SkipList::get_score"], "2 members, towers (2,1)")
 Z("c04_e_zrangebyscore_n2", "quick", "ZRANGEBYSCORE / ZREVRANGEBYSCORE / ZCOUNT for all non-NaN bounds: the members inside the bounds in (reversed) order, count equal",
